@@ -16,6 +16,8 @@ Everything after ` | ` on an op line is the oracle annotation the harness observ
   forge <dst> <role> <static-ident> <cert-ident> <cert-ver> <hs|full> <CertVersion> <ii> <ri> <seed> <m1reg|-> | len=<n>
         -> ok len=<n>    (a hand-driven noise peer with its own static key sends a crafted payload)
   pair <mI> <mR> | same=<0|1>                   -> none | ek= ke= xx= ri= li= mi= nz=
+  ilv <mA> <init|pp> <args…> // <mB> <init|pp> <args…> | <annA> // <annB>
+        -> <answer A> ;; <answer B> ;; nested=<0|1>   (B's call runs while noise draws A's ephemeral key)
   seed <m> <mi|->                               -> none | err | ok mc=<messageCounter> chk=<Check of the probe counters>
         (newConnectionStateFromResult on m's Result, MessageIndex optionally overridden)
 -/
@@ -122,7 +124,7 @@ def seedProbes (mi : Nat) : List Nat :=
 
 def bitsStr (l : List Bool) : String := String.ofList (l.map (fun b => if b then '1' else '0'))
 
-def step (s : S) (args : List String) (impl : String) : S × Out :=
+def stepCore (s : S) (args : List String) (impl : String) : S × Out :=
   let (op, ann) := splitAnn args
   match op with
   | ["reset", _, _] => ({}, { model := "ok", tag := "triv:reset" })
@@ -170,6 +172,10 @@ def step (s : S) (args : List String) (impl : String) : S × Out :=
         if mm.st.failed && !(impl.startsWith "err:failed") then "bad failed-not-absorbing" else
         -- C07 (a): a rejection that mutated the noise transcript must not leave the machine usable
         if reached && !Handshake.rejectionClean rd && iFailed == some false then s!"bad wedged-{why}" else
+        -- C07 (a'): a rejection after the noise library consumed the message (successful read) cannot leave
+        -- the machine usable either: the noise state has advanced past the genuine message
+        if reached && (match rd with | .ok _ _ _ _ => true | _ => false) && impl.startsWith "err:" &&
+           iFailed == some false then "bad wedged-noise-advanced" else
         -- C05: a completion must rest on an accepted certificate bound to the peer's noise static key
         match implRes impl with
         | some (_ :: _ :: cert :: rest) =>
@@ -250,6 +256,33 @@ def step (s : S) (args : List String) (impl : String) : S × Out :=
       | _, _ => (s, { model := "none", tag := "triv:pair:incomplete" })
     | _, _, _ => (s, badOp)
   | _ => (s, badOp)
+
+def splitAt2 (l : List String) (sep : String) : List String × List String :=
+  (l.takeWhile (· != sep), (l.dropWhile (· != sep)).drop 1)
+
+/-- `ilv <mA> <kind> <args…> // <mB> <kind> <args…> | annA // annB`: two calls on two Machines of one node,
+the second executed inside the first (the Machines share nothing in the model, so each is a plain step). -/
+def step (s : S) (args : List String) (impl : String) : S × Out :=
+  match args with
+  | "ilv" :: rest =>
+    let (op, ann) := splitAnn rest
+    let (oa, ob) := splitAt2 op "//"
+    let (aa, ab) := splitAt2 ann "//"
+    let mk (o : List String) (a : List String) : List String :=
+      match o with
+      | m :: k :: r => (k :: m :: r) ++ ["|"] ++ a
+      | _ => []
+    let parts := (impl.splitOn " ;; ").map (fun x => (x.trimAscii).toString)
+    let ia := parts.getD 0 ""
+    let ib := parts.getD 1 ""
+    let nested := parts.getD 2 "nested=?"
+    let (s1, o1) := stepCore s (mk oa aa) ia
+    let (s2, o2) := stepCore s1 (mk ob ab) ib
+    -- whether the second call really ran inside the first is the harness's observation, echoed
+    (s2, { model := s!"{o1.model} ;; {o2.model} ;; {nested}",
+           verdict := if o1.verdict.startsWith "bad" then o1.verdict else o2.verdict,
+           tag := s!"ilv:{o1.tag}+{o2.tag}:{nested}" })
+  | _ => stepCore s args impl
 
 def main : IO Unit := runEngine ({} : S) step
 
